@@ -351,7 +351,9 @@ impl<T: ?Sized> Clone for Reference<T> {
 macro_rules! to_dyn {
     ($trait_:path, $was:expr) => {{
         #[allow(unreachable_patterns)]
-        match $was.into_inner() {
+        //Naming the method through `Reference` makes sure that `$was` really is a `Reference`: the raw
+        //pointers below are only trustworthy because they come out of one.
+        match $crate::Reference::into_inner($was) {
             $crate::reference::ReferenceUnsafe::Ptr(ptr) => unsafe {
                 $crate::Reference::from_ptr(ptr as *mut dyn $trait_)
             },
@@ -376,7 +378,9 @@ macro_rules! to_dyn {
 macro_rules! to_dyn {
     ($trait_:path, $was:expr) => {{
         #[allow(unreachable_patterns)]
-        match $was.into_inner() {
+        //Naming the method through `Reference` makes sure that `$was` really is a `Reference`: the raw
+        //pointers below are only trustworthy because they come out of one.
+        match $crate::Reference::into_inner($was) {
             $crate::reference::ReferenceUnsafe::Ptr(ptr) => unsafe {
                 $crate::Reference::from_ptr(ptr as *mut dyn $trait_)
             },
@@ -396,7 +400,9 @@ macro_rules! to_dyn {
 macro_rules! to_dyn {
     ($trait_:path, $was:expr) => {{
         #[allow(unreachable_patterns)]
-        match $was.into_inner() {
+        //Naming the method through `Reference` makes sure that `$was` really is a `Reference`: the raw
+        //pointers below are only trustworthy because they come out of one.
+        match $crate::Reference::into_inner($was) {
             $crate::reference::ReferenceUnsafe::Ptr(ptr) => unsafe {
                 $crate::Reference::from_ptr(ptr as *mut dyn $trait_)
             },
